@@ -197,3 +197,62 @@ Lemma reset_pinned_refuted :
   let s := fst (pstep kf_fs prm (pinit [kf_reg]) PNext) in
   fst (pstep kf_fs prm (model_reset_pinned s) PNext) <> fst (pstep kf_fs prm (pinit [kf_reg]) PNext).
 Proof. vm_compute. discriminate. Qed.
+
+(* ---- what a tiling means for occurrences: every address of the mapping lies in exactly one chunk, and an
+   occurrence that starts in a chunk either lies wholly inside it or straddles its end ---- *)
+Definition in_chunk (x : N) (c : N * N) : Prop := fst c <= x < fst c + snd c.
+
+Lemma tiles_end_cover : forall l pos e x,
+  tiles_end pos l = Some e -> pos <= x < e -> exists c, In c l /\ in_chunk x c.
+Proof.
+  induction l as [|[s n] l IH]; intros pos e x H Hx; cbn [tiles_end] in H.
+  - inversion H; subst. lia.
+  - destruct (N.eqb_spec s pos) as [->|]; [|discriminate]. destruct (N.ltb_spec 0 n); [|discriminate].
+    cbn [andb] in H.
+    destruct (N.lt_ge_cases x (pos + n)) as [Hlt|Hge].
+    + exists (pos, n). split; [left; reflexivity|]. unfold in_chunk; cbn [fst snd]. lia.
+    + destruct (IH (pos + n) e x H ltac:(lia)) as [c [Hin Hc]]. exists c. split; [right; exact Hin|exact Hc].
+Qed.
+
+Lemma tiles_end_bounds : forall l pos e c,
+  tiles_end pos l = Some e -> In c l -> pos <= fst c /\ fst c + snd c <= e /\ 0 < snd c.
+Proof.
+  induction l as [|[s n] l IH]; intros pos e c H Hin; cbn [tiles_end] in H; [destruct Hin|].
+  destruct (N.eqb_spec s pos) as [->|]; [|discriminate]. destruct (N.ltb_spec 0 n); [|discriminate].
+  cbn [andb] in H.
+  assert (Hmono : pos + n <= e).
+  { clear -H. revert H. generalize (pos + n). revert e.
+    induction l as [|[s' n'] l IH]; intros e p H; cbn [tiles_end] in H; [inversion H; lia|].
+    destruct (N.eqb_spec s' p) as [->|]; [|discriminate]. destruct (N.ltb_spec 0 n'); [|discriminate].
+    cbn [andb] in H. specialize (IH _ _ H). lia. }
+  destruct Hin as [<-|Hin]; cbn [fst snd]; [lia|].
+  destruct (IH (pos + n) e c H Hin) as [H1 [H2 H3]]. lia.
+Qed.
+
+Lemma tiles_end_disjoint : forall l pos e c1 c2 x,
+  tiles_end pos l = Some e -> In c1 l -> In c2 l -> in_chunk x c1 -> in_chunk x c2 -> c1 = c2.
+Proof.
+  induction l as [|[s n] l IH]; intros pos e c1 c2 x H H1 H2 Hx1 Hx2; [destruct H1|].
+  cbn [tiles_end] in H.
+  destruct (N.eqb_spec s pos) as [->|]; [|discriminate]. destruct (N.ltb_spec 0 n); [|discriminate].
+  cbn [andb] in H. unfold in_chunk in *.
+  destruct H1 as [<-|H1], H2 as [<-|H2]; cbn [fst snd] in *.
+  - reflexivity.
+  - destruct (tiles_end_bounds l (pos + n) e c2 H H2) as [B _]. lia.
+  - destruct (tiles_end_bounds l (pos + n) e c1 H H1) as [B _]. lia.
+  - eapply IH; eassumption.
+Qed.
+
+Theorem occurrence_in_one_chunk :
+  forall start len l a n,
+    Tiles start len l -> 0 < n -> start <= a -> a + n <= start + len ->
+    exists c, In c l /\ in_chunk a c
+              /\ (forall c', In c' l -> in_chunk a c' -> c' = c)
+              /\ (a + n <= fst c + snd c \/ (a < fst c + snd c < a + n)).
+Proof.
+  intros start len l a n Ht Hn Ha Hend. unfold Tiles in Ht.
+  destruct (tiles_end_cover l start (start + len) a Ht ltac:(lia)) as [c [Hin Hc]].
+  exists c. split; [exact Hin|]. split; [exact Hc|]. split.
+  - intros c' Hin' Hc'. eapply tiles_end_disjoint; eassumption.
+  - unfold in_chunk in Hc. lia.
+Qed.
